@@ -16,42 +16,79 @@ open Dns Dns.Lex Dns.ZoneText Dns.C07
 def plain (b : UInt8) : Bool :=
   b != 32 && b != 9 && b != 59 && b != 13 && b != 10 && b != 92 && b != 34 && b != 40 && b != 41
 
-/-- the lexer state after reading the plain word `w` outside quotes and comments -/
-def advW : St → Bytes → St
-  | zl, [] => zl
-  | zl, b :: w => advW { advance zl b with space := false } w
+/-! words may carry escapes: `\c` copies `c` whatever it is (outside quotes an escaped line break is not copied, so
+    it is excluded), `\DDD` is four ordinary octets -/
 
-theorem advW_flags (zl : St) (w : Bytes) :
-    (advW zl w).quote = zl.quote ∧ (advW zl w).commt = zl.commt ∧ (advW zl w).nextL = zl.nextL ∧
-    (advW zl w).brace = zl.brace ∧ (advW zl w).comBuf = zl.comBuf ∧ (advW zl w).comment = zl.comment ∧
-    (advW zl w).rrtype = zl.rrtype ∧ (advW zl w).owner = zl.owner ∧ (advW zl w).l.err = zl.l.err ∧
-    (advW zl w).l.torc = zl.l.torc ∧ (advW zl w).l.value = zl.l.value ∧ (advW zl w).l.token = zl.l.token ∧
-    (w ≠ [] → (advW zl w).space = false) ∧ (w = [] → (advW zl w).space = zl.space) := by
-  induction w generalizing zl with
-  | nil => simp [advW]
+/-- `w` can be read as (part of) one token outside quotes, starting in escape state `e` -/
+def okN : Bool → Bytes → Bool
+  | _, [] => true
+  | e, x :: s => (if e then (x != 13 && x != 10) else (plain x || x == 92)) && okN (x == 92 && !e) s
+
+/-- the escape state after `w` -/
+def endE : Bool → Bytes → Bool
+  | e, [] => e
+  | e, x :: s => endE (x == 92 && !e) s
+
+/-- octets that, escaped, are copied without touching the `space` flag -/
+def keepsSpace (x : UInt8) : Bool := x == 32 || x == 9 || x == 59 || x == 92 || x == 34 || x == 40 || x == 41
+
+/-- the `space` flag after `w` -/
+def spAfter : Bool → Bool → Bytes → Bool
+  | sp, _, [] => sp
+  | sp, e, x :: s => spAfter (if (e && keepsSpace x) || (!e && x == 92) then sp else false) (x == 92 && !e) s
+
+/-- the lexer state after reading `w` outside quotes and comments -/
+def advN : St → Bool → Bytes → St
+  | zl, _, [] => zl
+  | zl, e, x :: w =>
+    advN (if (e && keepsSpace x) || (!e && x == 92) then advance zl x else { advance zl x with space := false })
+      (x == 92 && !e) w
+
+/-- a word: readable as one token, no escape left open, and at least one octet that clears the `space` flag (so that
+    the blank behind it is delivered) -/
+def wordOK (w : Bytes) : Bool := okN false w && !(endE false w) && !(spAfter true false w)
+
+theorem spAfter_false (e : Bool) (w : Bytes) : spAfter false e w = false := by
+  induction w generalizing e with
+  | nil => rfl
+  | cons x w ih => simp only [spAfter]; split <;> exact ih _
+
+theorem spAfter_mono (e : Bool) (w : Bytes) (h : spAfter true e w = false) (sp : Bool) : spAfter sp e w = false := by
+  cases sp
+  · exact spAfter_false e w
+  · exact h
+
+theorem advN_flags (zl : St) (e : Bool) (w : Bytes) :
+    (advN zl e w).quote = zl.quote ∧ (advN zl e w).commt = zl.commt ∧ (advN zl e w).nextL = zl.nextL ∧
+    (advN zl e w).brace = zl.brace ∧ (advN zl e w).comBuf = zl.comBuf ∧ (advN zl e w).comment = zl.comment ∧
+    (advN zl e w).rrtype = zl.rrtype ∧ (advN zl e w).owner = zl.owner ∧ (advN zl e w).l.err = zl.l.err ∧
+    (advN zl e w).l.torc = zl.l.torc ∧ (advN zl e w).l.value = zl.l.value ∧ (advN zl e w).l.token = zl.l.token ∧
+    (advN zl e w).space = spAfter zl.space e w := by
+  induction w generalizing zl e with
+  | nil => simp [advN, spAfter]
   | cons b w ih =>
-    have := ih { advance zl b with space := false }
-    simp only [advW]
     have ha : (advance zl b).quote = zl.quote ∧ (advance zl b).commt = zl.commt ∧ (advance zl b).rrtype = zl.rrtype ∧
-        (advance zl b).owner = zl.owner ∧ (advance zl b).l.torc = zl.l.torc ∧ (advance zl b).l.value = zl.l.value := by
+        (advance zl b).owner = zl.owner ∧ (advance zl b).l.torc = zl.l.torc ∧ (advance zl b).l.value = zl.l.value ∧
+        (advance zl b).space = zl.space := by
       unfold advance; simp only; repeat' split
       all_goals simp_all
     have hb := advance_facts zl b
-    by_cases hw : w = []
-    · subst hw
-      simp_all [advW]
-    · simp_all
+    simp only [advN, spAfter]
+    split
+    · have := ih (advance zl b) (b == 92 && !e)
+      simp_all
+    · have := ih { advance zl b with space := false } (b == 92 && !e)
+      simp_all
 
-theorem scan_plain (zl : St) (str com : Bytes) (w rest : Bytes) (hw : w.all plain = true)
+/-- **a word is copied into the token octet by octet**, escapes included -/
+theorem scan_word (zl : St) (str com : Bytes) (e : Bool) (w rest : Bytes) (hw : okN e w = true)
     (hq : zl.quote = false) (hc : zl.commt = false) :
-    scan zl str com false (w ++ rest) = scan (advW zl w) (str ++ w) com false rest := by
-  induction w generalizing zl str with
-  | nil => simp [advW]
+    scan zl str com e (w ++ rest) = scan (advN zl e w) (str ++ w) com (endE e w) rest := by
+  induction w generalizing zl str e with
+  | nil => simp [advN, endE]
   | cons b w ih =>
-    simp only [List.all_cons, Bool.and_eq_true] at hw
+    simp only [okN, Bool.and_eq_true] at hw
     obtain ⟨hb, hw⟩ := hw
-    simp only [plain, Bool.and_eq_true, bne_iff_ne, ne_eq] at hb
-    obtain ⟨⟨⟨⟨⟨⟨⟨⟨h1, h2⟩, h3⟩, h4⟩, h5⟩, h6⟩, h7⟩, h8⟩, h9⟩ := hb
     have haf := advance_facts zl b
     have hcm : (advance zl b).commt = false := by
       unfold advance; simp only; repeat' split
@@ -60,11 +97,70 @@ theorem scan_plain (zl : St) (str com : Bytes) (w rest : Bytes) (hw : w.all plai
       unfold advance; simp only; repeat' split
       all_goals simp_all
     have hcm' : ¬ (advance zl b).commt = true := by simp [hcm]
+    have hqm' : ¬ (advance zl b).quote = true := by simp [hqm]
     rw [List.cons_append, scan]
-    simp only [beq_iff_eq, h1, h2, h3, h4, h5, h6, h7, h8, h9, or_self, ↓reduceIte]
-    rw [if_neg hcm']
-    rw [ih { advance zl b with space := false } (str ++ [b]) hw (by simpa using hqm) (by simpa using hcm)]
-    simp [advW, List.append_assoc]
+    simp only [advN, endE]
+    cases e with
+    | false =>
+      simp only [Bool.false_eq_true, ↓reduceIte, Bool.or_eq_true, beq_iff_eq] at hb
+      simp only [Bool.false_and, Bool.not_false, Bool.true_and, Bool.false_or, Bool.and_true]
+      by_cases h92 : b = 92
+      · subst h92
+        simp only [if_neg hcm']
+        simp only [beq_self_eq_true, ↓reduceIte]
+        rw [ih (advance zl 92) (str ++ [92]) true hw hqm hcm]
+        simp [List.append_assoc]
+      · have hpl : plain b = true := by rcases hb with h | h; exact h; exact absurd h h92
+        simp only [plain, Bool.and_eq_true, bne_iff_ne, ne_eq] at hpl
+        obtain ⟨⟨⟨⟨⟨⟨⟨⟨h1, h2⟩, h3⟩, h4⟩, h5⟩, h6⟩, h7⟩, h8⟩, h9⟩ := hpl
+        have hb92 : (b == 92) = false := by simpa using h92
+        simp only [beq_iff_eq, h1, h2, h3, h4, h5, h6, h7, h8, h9, or_self, ↓reduceIte, if_neg hcm', hb92,
+          Bool.false_eq_true]
+        have hw' : okN false w = true := by simpa [hb92] using hw
+        rw [ih { advance zl b with space := false } (str ++ [b]) false hw' (by simpa using hqm) (by simpa using hcm)]
+        simp [List.append_assoc]
+    | true =>
+      simp only [↓reduceIte, Bool.and_eq_true, bne_iff_ne, ne_eq] at hb
+      obtain ⟨h13, h10⟩ := hb
+      simp only [Bool.true_and, Bool.not_true, Bool.and_false, Bool.false_and, Bool.or_false]
+      have hw' : okN false w = true := by simpa using hw
+      have h13' : (b == 13) = false := by simpa using h13
+      have h10' : (b == 10) = false := by simpa using h10
+      by_cases hk : keepsSpace b = true
+      · simp only [hk, ↓reduceIte]
+        have := ih (advance zl b) (str ++ [b]) false hw' hqm hcm
+        simp only [keepsSpace, Bool.or_eq_true, beq_iff_eq] at hk
+        rcases hk with (((((h | h) | h) | h) | h) | h) | h <;> subst h <;>
+          simp [if_neg hcm', this, List.append_assoc]
+      · have hk' : keepsSpace b = false := by simpa using hk
+        simp only [hk', Bool.false_eq_true, ↓reduceIte]
+        simp only [keepsSpace, Bool.or_eq_false_iff, beq_eq_false_iff_ne, ne_eq] at hk'
+        obtain ⟨⟨⟨⟨⟨⟨k1, k2⟩, k3⟩, k4⟩, k5⟩, k6⟩, k7⟩ := hk'
+        have := ih { advance zl b with space := false } (str ++ [b]) false hw' (by simpa using hqm) (by simpa using hcm)
+        simp [k1, k2, k3, k4, k5, k6, k7, h13, h10, if_neg hcm', this, List.append_assoc]
+
+theorem plain_wordOK (w : Bytes) (h : w.all plain = true) (hne : w ≠ []) : wordOK w = true := by
+  have h1 : ∀ w : Bytes, w.all plain = true → okN false w = true ∧ endE false w = false := by
+    intro w
+    induction w with
+    | nil => intro _; exact ⟨rfl, rfl⟩
+    | cons b w ih =>
+      intro hw
+      simp only [List.all_cons, Bool.and_eq_true] at hw
+      have hb92 : (b == 92) = false := by
+        have := hw.1; simp only [plain, Bool.and_eq_true, bne_iff_ne, ne_eq] at this; simpa using this.1.1.1.2
+      simp only [okN, endE, Bool.false_eq_true, ↓reduceIte, hw.1, Bool.true_or, hb92, Bool.false_and, Bool.true_and]
+      exact ih hw.2
+  cases w with
+  | nil => exact absurd rfl hne
+  | cons b w =>
+    simp only [List.all_cons, Bool.and_eq_true] at h
+    have hb92 : (b == 92) = false := by
+      have := h.1; simp only [plain, Bool.and_eq_true, bne_iff_ne, ne_eq] at this; simpa using this.1.1.1.2
+    obtain ⟨a1, a2⟩ := h1 (b :: w) (by simp only [List.all_cons, Bool.and_eq_true]; exact h)
+    simp only [wordOK, a1, a2, Bool.not_false, Bool.and_self, Bool.true_and, Bool.not_eq_true', spAfter,
+      Bool.false_and, hb92, Bool.not_false, Bool.true_and, Bool.or_self, Bool.false_eq_true, ↓reduceIte]
+    exact spAfter_false _ _
 
 /-! ### the token stream without fuel -/
 
@@ -108,24 +204,27 @@ theorem advance_flags (zl : St) (x : UInt8) :
   all_goals simp_all
 
 /-- the state in which the blank (or newline) after the plain word `w` is read -/
-def atEnd (zl : St) (w : Bytes) (x : UInt8) : St := advance (advW { zl with comBuf := [], comment := [] } w) x
+def atEnd (zl : St) (w : Bytes) (x : UInt8) : St := advance (advN { zl with comBuf := [], comment := [] } false w) x
 
 theorem atEnd_flags (zl : St) (w : Bytes) (x : UInt8) (hR : Ready zl) :
     (atEnd zl w x).quote = false ∧ (atEnd zl w x).commt = false ∧ (atEnd zl w x).nextL = false ∧
     (atEnd zl w x).brace = 0 ∧ (atEnd zl w x).comBuf = [] ∧ (atEnd zl w x).l.err = false ∧
     (atEnd zl w x).rrtype = zl.rrtype ∧ (atEnd zl w x).owner = zl.owner ∧ (atEnd zl w x).l.torc = zl.l.torc ∧
-    (w ≠ [] → (atEnd zl w x).space = false) ∧ (w = [] → (atEnd zl w x).space = zl.space) := by
+    (wordOK w = true → (atEnd zl w x).space = false) ∧ (w = [] → (atEnd zl w x).space = zl.space) := by
   unfold atEnd
-  have h1 := advW_flags { zl with comBuf := [], comment := [] } w
-  have h2 := advance_flags (advW { zl with comBuf := [], comment := [] } w) x
-  have h3 := advance_facts (advW { zl with comBuf := [], comment := [] } w) x
-  obtain ⟨a1, a2, a3, a4, a5, a6, a7, a8, a9, a10, a11, a12, a13, a14⟩ := h1
+  have h1 := advN_flags { zl with comBuf := [], comment := [] } false w
+  have h2 := advance_flags (advN { zl with comBuf := [], comment := [] } false w) x
+  have h3 := advance_facts (advN { zl with comBuf := [], comment := [] } false w) x
+  obtain ⟨a1, a2, a3, a4, a5, a6, a7, a8, a9, a10, a11, a12, a13⟩ := h1
   obtain ⟨b1, b2, b3, b4, b5, b6, b7⟩ := h2
   obtain ⟨c1, c2, c3, c4, c5, c6⟩ := h3
   refine ⟨by rw [b1, a1]; exact hR.q, by rw [b2, a2]; exact hR.c, by rw [c1, a3]; exact hR.n, by rw [c2, a4]; exact hR.b,
     by rw [c3, a5], by rw [c5, a9]; exact hR.e, by rw [b3, a7], by rw [b4, a8], by rw [b6, a10], ?_, ?_⟩
-  · intro hw; rw [b5]; exact a13 hw
-  · intro hw; rw [b5, a14 hw]
+  · intro hw
+    simp only [wordOK, Bool.and_eq_true, Bool.not_eq_true'] at hw
+    rw [b5, a13]
+    exact spAfter_mono false w hw.2 _
+  · intro hw; subst hw; rw [b5, a13]; rfl
 
 theorem classify_keeps (zl : St) (str : Bytes) :
     (classify zl str).1.space = zl.space ∧ (classify zl str).1.quote = zl.quote ∧ (classify zl str).1.commt = zl.commt ∧
@@ -164,7 +263,7 @@ theorem scan_blank_word (z0 : St) (str com rest : Bytes) (hq : (advance z0 32).q
     simp only [hok', Bool.not_false, ↓reduceIte, Bool.false_eq_true]
 
 /-- a plain word followed by a blank: the word, classified, and the blank as a pending second token -/
-theorem next_word_blank (zl : St) (w rest : Bytes) (hw : w.all plain = true) (hne : w ≠ []) (hR : Ready zl) :
+theorem next_word_blank (zl : St) (w rest : Bytes) (hw : wordOK w = true) (hne : w ≠ []) (hR : Ready zl) :
     next zl (w ++ 32 :: rest) =
       (if (classify (atEnd zl w 32) w).2 then
         (blankPending (classify (atEnd zl w 32) w).1, rest, some (classify (atEnd zl w 32) w).1.l)
@@ -173,12 +272,14 @@ theorem next_word_blank (zl : St) (w rest : Bytes) (hw : w.all plain = true) (hn
   unfold next
   rw [if_neg (by simp [hR.n]), if_neg (by simp [hR.e])]
   have hcom : zl.comBuf.take Gen.maxTok = [] := by rw [hR.cb]; rfl
-  rw [hcom, scan_plain _ _ _ _ _ hw (by simpa using hR.q) (by simpa using hR.c)]
+  have hwk : okN false w = true ∧ endE false w = false := by
+    simp only [wordOK, Bool.and_eq_true, Bool.not_eq_true'] at hw; exact ⟨hw.1.1, hw.1.2⟩
+  rw [hcom, scan_word _ _ _ _ _ _ hwk.1 (by simpa using hR.q) (by simpa using hR.c), hwk.2]
   have hstr : ([] ++ w).isEmpty = false := by
     cases w with
     | nil => exact absurd rfl hne
     | cons _ _ => rfl
-  rw [scan_blank_word _ _ _ _ f1 f2 (f10 hne) hstr]
+  rw [scan_blank_word _ _ _ _ f1 f2 (f10 hw) hstr]
   rfl
 
 /-- the word delivered at the end of a line (only a type mnemonic is recognised there) -/
@@ -264,7 +365,7 @@ theorem stream_pending (zl : St) (input : Bytes) (h : zl.nextL = true) :
   simp [next, h]
 
 /-- **word and blank**: a plain word followed by a blank is delivered as the classified word and a blank -/
-theorem stream_word_blank (zl : St) (w rest : Bytes) (o r s : Bool) (hL : LS zl o r s) (hw : w.all plain = true)
+theorem stream_word_blank (zl : St) (w rest : Bytes) (o r s : Bool) (hL : LS zl o r s) (hw : wordOK w = true)
     (hne : w ≠ []) (hok : ∀ z : St, z.owner = o → z.rrtype = r → z.l.err = false → (classify z w).2 = true) :
     ∃ z t b zl', z.owner = o ∧ z.rrtype = r ∧ z.l.err = false ∧ t = (classify z w).1.l ∧
       stream zl (w ++ 32 :: rest) = t :: b :: stream zl' rest ∧ t.token = w ∧ t.err = false ∧
@@ -296,7 +397,7 @@ theorem next_ready (zl : St) (input : Bytes) (hR : Ready zl) :
   rw [hcom]
 
 /-- **word and newline**: the last word of a line and the newline -/
-theorem stream_word_nl (zl : St) (w rest : Bytes) (o r s : Bool) (hL : LS zl o r s) (hw : w.all plain = true)
+theorem stream_word_nl (zl : St) (w rest : Bytes) (o r s : Bool) (hL : LS zl o r s) (hw : wordOK w = true)
     (hne : w ≠ []) :
     ∃ z t b zl', z.rrtype = r ∧ z.l.err = false ∧ t = nlWordTok z w ∧
       stream zl (w ++ 10 :: rest) = t :: b :: stream zl' rest ∧
@@ -310,8 +411,10 @@ theorem stream_word_nl (zl : St) (w rest : Bytes) (o r s : Bool) (hL : LS zl o r
     unfold nlWordTok; split <;> simpa using f6
   refine ⟨atEnd zl w 10, nlWordTok (atEnd zl w 10) w, (nlPending (atEnd zl w 10) w).l,
     { nlPending (atEnd zl w 10) w with nextL := false }, by rw [f7, hL.rr], f6, rfl, ?_, rfl, ?_, ?_⟩
-  · rw [stream_step, next_ready zl _ hL.rdy, scan_plain _ _ _ _ _ hw (by simpa using hL.rdy.q) (by simpa using hL.rdy.c),
-      scan_nl_word _ _ _ _ f1 f2 f4 hstr]
+  · have hwk : okN false w = true ∧ endE false w = false := by
+      simp only [wordOK, Bool.and_eq_true, Bool.not_eq_true'] at hw; exact ⟨hw.1.1, hw.1.2⟩
+    rw [stream_step, next_ready zl _ hL.rdy, scan_word _ _ _ _ _ _ hwk.1 (by simpa using hL.rdy.q) (by simpa using hL.rdy.c),
+      hwk.2, scan_nl_word _ _ _ _ f1 f2 f4 hstr]
     simp only [List.nil_append]
     rw [stream_pending _ _ (by rfl)]
     rfl
@@ -321,7 +424,7 @@ theorem stream_word_nl (zl : St) (w rest : Bytes) (o r s : Bool) (hL : LS zl o r
     · simpa [nlPending] using f1
     · simpa [nlPending] using f2
     · simpa [nlPending] using f4
-    · simpa [nlPending] using f10 hne
+    · simpa [nlPending] using f10 hw
 
 /-- a line that starts with a blank: the blank alone -/
 theorem stream_blank_first (zl : St) (rest : Bytes) (o r : Bool) (hL : LS zl o r false) :
@@ -331,7 +434,7 @@ theorem stream_blank_first (zl : St) (rest : Bytes) (o r : Bool) (hL : LS zl o r
   refine ⟨(blankAlone (atEnd zl [] 32)).l, blankAlone (atEnd zl [] 32), ?_, rfl, ?_, ?_⟩
   · rw [stream_step, next_ready zl _ hL.rdy]
     have := scan_blank_first { zl with comBuf := [], comment := [] } [] rest f1 f2 hsp
-    unfold atEnd advW at *
+    unfold atEnd advN at *
     rw [this]
   · simpa [blankAlone] using f6
   · refine ⟨⟨?_, ?_, ?_, ?_, ?_, ?_⟩, rfl, ?_, rfl⟩
@@ -350,7 +453,7 @@ theorem stream_nl_first (zl : St) (rest : Bytes) (o r s : Bool) (hL : LS zl o r 
   refine ⟨(nlAlone (atEnd zl [] 10)).l, nlAlone (atEnd zl [] 10), ?_, rfl, ?_, ?_⟩
   · rw [stream_step, next_ready zl _ hL.rdy]
     have := scan_nl_first { zl with comBuf := [], comment := [] } [] rest f1 f2 f4
-    unfold atEnd advW at *
+    unfold atEnd advN at *
     rw [this]
   · simpa [nlAlone] using f6
   · refine ⟨⟨?_, ?_, ?_, ?_, rfl, ?_⟩, rfl, rfl, ?_⟩
@@ -650,12 +753,130 @@ theorem abs_dir (ttl : Bool) (b v n : Tok) (S : List Tok) (hb : b.value = zBlank
 /-! ### pieces of a line -/
 
 /-- a word of the plain rendering: non-empty, no blank, no line break, no quote, escape, parenthesis or semicolon -/
-def Word (w : Bytes) : Prop := w ≠ [] ∧ w.all plain = true
+def Word (w : Bytes) : Prop := w ≠ [] ∧ wordOK w = true
 
-theorem digits_word (ds : Bytes) (h : Digits ds) : Word ds := ⟨h.1, (digits_all ds h.2).2⟩
+theorem digits_word (ds : Bytes) (h : Digits ds) : Word ds := ⟨h.1, plain_wordOK ds (digits_all ds h.2).2 h.1⟩
 
-theorem prefixed_word (p ds : Bytes) (hp : p.all plain = true) (h : Digits ds) : Word (p ++ ds) :=
-  ⟨by intro e; exact h.1 (List.append_eq_nil_iff.mp e).2, by rw [List.all_append, hp, (digits_all ds h.2).2]; rfl⟩
+theorem prefixed_word (p ds : Bytes) (hp : p.all plain = true) (h : Digits ds) : Word (p ++ ds) := by
+  have hne : p ++ ds ≠ [] := by intro e; exact h.1 (List.append_eq_nil_iff.mp e).2
+  exact ⟨hne, plain_wordOK _ (by rw [List.all_append, hp, (digits_all ds h.2).2]; rfl) hne⟩
+
+/-! ### domain names in the library's spelling are words -/
+
+theorem okN_append (e : Bool) (a b : Bytes) : okN e (a ++ b) = (okN e a && okN (endE e a) b) := by
+  induction a generalizing e with
+  | nil => simp [okN, endE]
+  | cons x a ih => simp [okN, endE, ih, Bool.and_assoc]
+
+theorem endE_append (e : Bool) (a b : Bytes) : endE e (a ++ b) = endE (endE e a) b := by
+  induction a generalizing e with
+  | nil => simp [endE]
+  | cons x a ih => simp [endE, ih]
+
+theorem spAfter_append (sp e : Bool) (a b : Bytes) : spAfter sp e (a ++ b) = spAfter (spAfter sp e a) (endE e a) b := by
+  induction a generalizing sp e with
+  | nil => simp [spAfter, endE]
+  | cons x a ih => simp [spAfter, endE, ih]
+
+/-- every octet of a label, as `UnpackDomainName` / `sprintName` spell it, can be read back by the lexer -/
+theorem presentByte_ok : ∀ b : Byte, okN false (presentByte b) = true ∧ endE false (presentByte b) = false := by
+  apply forall_byte; decide +kernel
+
+theorem presentLabel_ok (l : Bytes) : okN false (presentLabel l) = true ∧ endE false (presentLabel l) = false := by
+  induction l with
+  | nil => exact ⟨rfl, rfl⟩
+  | cons b l ih =>
+    have hb := presentByte_ok b
+    simp only [presentLabel, List.flatMap_cons] at ih ⊢
+    rw [okN_append, endE_append, hb.1, hb.2]
+    exact ⟨by simpa using ih.1, ih.2⟩
+
+theorem labels_dot_ok (ls : List Bytes) :
+    okN false (ls.flatMap (fun l => presentLabel l ++ [46])) = true ∧
+    endE false (ls.flatMap (fun l => presentLabel l ++ [46])) = false := by
+  induction ls with
+  | nil => exact ⟨rfl, rfl⟩
+  | cons l ls ih =>
+    have hl := presentLabel_ok l
+    simp only [List.flatMap_cons, List.append_assoc]
+    rw [okN_append, endE_append, hl.1, hl.2, okN_append, endE_append]
+    refine ⟨by simpa [okN, endE, plain] using ih.1, by simpa [endE] using ih.2⟩
+
+/-- **names are words**: the presentation form of every name — any octets in the labels, escaped as the library escapes
+    them — is delivered by the lexer as one token, like a plain word -/
+theorem name_word (ls : List Bytes) : Word (presentOf ls) := by
+  unfold presentOf
+  split
+  · exact ⟨by decide, by decide⟩
+  · rename_i hne
+    cases ls with
+    | nil => simp at hne
+    | cons l ls =>
+      obtain ⟨h1, h2⟩ := labels_dot_ok (l :: ls)
+      refine ⟨by simp, ?_⟩
+      simp only [wordOK, h1, h2, Bool.not_false, Bool.and_self, Bool.true_and, Bool.not_eq_true']
+      simp only [List.flatMap_cons]
+      rw [spAfter_append, spAfter_append, (presentLabel_ok l).2]
+      simp only [spAfter, keepsSpace, Bool.false_and, Bool.not_false, Bool.true_and, Bool.false_or]
+      have : ((46 : UInt8) == 92) = false := by decide
+      simp only [this, Bool.false_eq_true, ↓reduceIte]
+      exact spAfter_false _ _
+
+def NotDirective (w : Bytes) : Prop :=
+  goUpper w ≠ ascii "$TTL" ∧ goUpper w ≠ ascii "$ORIGIN" ∧ goUpper w ≠ ascii "$INCLUDE" ∧ goUpper w ≠ ascii "$GENERATE"
+
+theorem goUpper_last_dot (s : Bytes) (h : s.getLast? = some 46) : (goUpper s).getLast? = some 46 := by
+  fun_induction goUpper s
+  · simp at h
+  · rename_i b
+    simp only [List.getLast?_singleton, Option.some.injEq] at h
+    subst h
+    decide
+  · rename_i b c rest hbc ih
+    cases rest with
+    | nil =>
+      simp only [List.getLast?_cons_cons, List.getLast?_singleton, Option.some.injEq] at h
+      subst h
+      simp at hbc
+    | cons d rest =>
+      have : (d :: rest).getLast? = some 46 := by simpa [List.getLast?_cons_cons] using h
+      have := ih this
+      cases hg : goUpper (d :: rest) with
+      | nil => simp [hg] at this
+      | cons g gs => rw [hg] at this; simpa [List.getLast?_cons_cons] using this
+  · rename_i b c rest h1 h2 ih
+    cases rest with
+    | nil =>
+      simp only [List.getLast?_cons_cons, List.getLast?_singleton, Option.some.injEq] at h
+      subst h
+      simp at h2
+    | cons d rest =>
+      have : (d :: rest).getLast? = some 46 := by simpa [List.getLast?_cons_cons] using h
+      have := ih this
+      cases hg : goUpper (d :: rest) with
+      | nil => simp [hg] at this
+      | cons g gs => rw [hg] at this; simpa [List.getLast?_cons_cons] using this
+  · rename_i b c rest h1 h2 ih
+    have : (c :: rest).getLast? = some 46 := by simpa [List.getLast?_cons_cons] using h
+    have := ih this
+    cases hg : goUpper (c :: rest) with
+    | nil => simp [hg] at this
+    | cons g gs => rw [hg] at this; simpa [List.getLast?_cons_cons] using this
+
+/-- a fully qualified name is never taken for a directive -/
+theorem name_notDirective (ls : List Bytes) : NotDirective (presentOf ls) := by
+  have hl : (presentOf ls).getLast? = some 46 := by
+    unfold presentOf
+    split
+    · rfl
+    · rename_i hne
+      cases ls with
+      | nil => simp at hne
+      | cons l ls =>
+        rw [← List.dropLast_concat_getLast (l := l :: ls) (by simp)]
+        simp [List.flatMap_append, List.getLast?_append]
+  have hg := goUpper_last_dot _ hl
+  refine ⟨?_, ?_, ?_, ?_⟩ <;> intro he <;> rw [he] at hg <;> revert hg <;> decide
 
 /-! ### the words of a header, by what the lexer makes of them -/
 
@@ -882,9 +1103,6 @@ def TLine.toZLine : TLine → ZLine
   | .ttlDir _ v => .ttlDir v
   | .originDir n => .originDir n
   | .rr x => .rr x.owner (x.ttl.map (·.2)) (x.cls.map (·.2)) x.ttlFirst x.typ.2
-
-def NotDirective (w : Bytes) : Prop :=
-  goUpper w ≠ ascii "$TTL" ∧ goUpper w ≠ ascii "$ORIGIN" ∧ goUpper w ≠ ascii "$INCLUDE" ∧ goUpper w ≠ ascii "$GENERATE"
 
 /-- well-formed lines: every word is what its place says -/
 def TLine.WF : TLine → Prop
